@@ -110,6 +110,12 @@ inductive Feed
   | keyError            -- a `KeyError` escaping from the final lookup (shown unreachable)
 deriving Repr, DecidableEq
 
+/-- how `feed_and_take` lets the errors of `_append_request_block` out: `ValueError` is caught
+and becomes `IncompleteException` (the first C06 fix), `BadRequest` passes through -/
+def feedOfErr : AppendErr → Feed
+  | .valueError => .incomplete
+  | .badRequest => .badRequest
+
 /-- `Block1Spool.feed_and_take(req)` at time `now` (timers already run) -/
 def feedAndTake (T now : Nat) (sp : TD Key Msg) (req : Msg) : TD Key Msg × Feed :=
   match req.block1 with
@@ -125,8 +131,7 @@ def feedAndTake (T now : Nat) (sp : TD Key Msg) (req : Msg) : TD Key Msg × Feed
         | none => .error (sp, .incomplete)
         | some (self, sp1) =>
           match appendRequestBlock self req b with
-          | .error .valueError => .error (sp1, .incomplete)
-          | .error .badRequest => .error (sp1, .badRequest)
+          | .error e => .error (sp1, feedOfErr e)
           | .ok self' => .ok (sp1.mutate k self')
     match stored with
     | .error r => r
@@ -167,29 +172,42 @@ def needsChunking (req : Msg) (len : Nat) : Bool :=
      | none => false
      | some b => decide (len > b.size) || decide (b.num ≠ 0))
 
+/-- a request for the beginning of a representation (`block2 is None or block_number == 0`):
+the response builder is awaited -/
+def isFresh (req : Msg) : Bool :=
+  match req.block2 with | none => true | some b => decide (b.num = 0)
+
+/-- `req.opt.block2 or BlockwiseTuple(0, 0, req.remote.maximum_block_size_exp)` -/
+def governing (req : Msg) : Blk :=
+  match req.block2 with
+  | some b => b
+  | none => { num := 0, more := false, szx := req.remote.maxSzx }
+
+/-- `try: del self._completes[block_key]` / `except KeyError: pass` -/
+def delIf (c : TD Key Resp) (k : Key) : TD Key Resp :=
+  match c.del k with | some c' => c' | none => c
+
+/-- `assembled._extract_block(block2.block_number, block2.size_exponent, maximum_payload_size)` -/
+def sliceOf (a : Resp) (req : Msg) : Extract :=
+  match extractBlock a (governing req).num (governing req).szx req.remote.maxPayload with
+  | some r => .ok r
+  | none => .badRequest
+
 /-- `Block2Cache.extract_or_insert(req, response_builder)` at time `now`.
 Third component: whether `response_builder` (the handler) was awaited. -/
 def extractOrInsert (T now : Nat) (c : TD Key Resp) (req : Msg) (render : Msg → Resp) :
     TD Key Resp × Extract × Bool :=
   let k := blockKey req
-  let fresh : Bool := match req.block2 with | none => true | some b => decide (b.num = 0)
   let looked : Option (Resp × TD Key Resp) :=
-    if fresh then some (render req, c) else c.get T now k
+    if isFresh req then some (render req, c) else c.get T now k
   match looked with
   | none => (c, .incomplete, false)
   | some (a, c1) =>
     if needsChunking req a.payload.length then
-      let c2 := c1.set T now k a
-      let b2 : Blk := match req.block2 with
-        | some b => b
-        | none => { num := 0, more := false, szx := req.remote.maxSzx }
-      match extractBlock a b2.num b2.szx req.remote.maxPayload with
-      | some r => (c2, .ok r, fresh)
-      | none => (c2, .badRequest, fresh)
+      (c1.set T now k a, sliceOf a req, isFresh req)
     else
       -- the complete response supersedes any rendering still kept for later blocks
-      let c2 := match c1.del k with | some c' => c' | none => c1
-      (c2, .ok a, fresh)
+      (delIf c1 k, .ok a, isFresh req)
 
 -- Resource._render_to_pipe -----------------------------------------------------------------
 
@@ -219,32 +237,32 @@ text not modelled) -/
 def errResp (code : Nat) (block1 : Option Blk) : Resp :=
   { code := code, opts := [], block1 := block1, block2 := none, payload := [] }
 
+/-- what `_render_to_pipe` puts on the pipe after `extract_or_insert`: the (sliced) response with
+`res.opt.block1 = req.opt.block1`, or the rendered exception -/
+def respondExtract (m : Msg) : Extract → Resp
+  | .ok r => { r with block1 := m.block1 }
+  | .incomplete => errResp REQUEST_ENTITY_INCOMPLETE none
+  | .badRequest => errResp BAD_REQUEST none
+
 /-- `Resource._render_to_pipe` for one request, preceded by the timers of both dictionaries
 that are due at its arrival time -/
 def step (T : Nat) (st : RState) (i : In) : RState × StepOut :=
   let sp := st.spool.advance T i.now
   let c := st.cache.advance T i.now
   if i.assemble then
-    match feedAndTake T i.now sp i.req with
-    | (sp', .cont b) => ({ spool := sp', cache := c }, { resp := errResp CONTINUE (some b), seen := none })
-    | (sp', .incomplete) =>
-      ({ spool := sp', cache := c }, { resp := errResp REQUEST_ENTITY_INCOMPLETE none, seen := none })
-    | (sp', .badRequest) =>
-      ({ spool := sp', cache := c }, { resp := errResp BAD_REQUEST none, seen := none })
-    | (sp', .keyError) =>
-      ({ spool := sp', cache := c }, { resp := errResp INTERNAL_SERVER_ERROR none, seen := none })
-    | (sp', .pass m) =>
-      match extractOrInsert T i.now c m i.render with
-      | (c', .ok r, called) =>
-        -- `res.opt.block1 = req.opt.block1`
-        ({ spool := sp', cache := c' },
-         { resp := { r with block1 := m.block1 }, seen := if called then some m else none })
-      | (c', .incomplete, called) =>
-        ({ spool := sp', cache := c' },
-         { resp := errResp REQUEST_ENTITY_INCOMPLETE none, seen := if called then some m else none })
-      | (c', .badRequest, called) =>
-        ({ spool := sp', cache := c' },
-         { resp := errResp BAD_REQUEST none, seen := if called then some m else none })
+    let f := feedAndTake T i.now sp i.req
+    match f.2 with
+    | .cont b => ({ spool := f.1, cache := c }, { resp := errResp CONTINUE (some b), seen := none })
+    | .incomplete =>
+      ({ spool := f.1, cache := c }, { resp := errResp REQUEST_ENTITY_INCOMPLETE none, seen := none })
+    | .badRequest =>
+      ({ spool := f.1, cache := c }, { resp := errResp BAD_REQUEST none, seen := none })
+    | .keyError =>
+      ({ spool := f.1, cache := c }, { resp := errResp INTERNAL_SERVER_ERROR none, seen := none })
+    | .pass m =>
+      let e := extractOrInsert T i.now c m i.render
+      ({ spool := f.1, cache := e.1 },
+       { resp := respondExtract m e.2.1, seen := if e.2.2 then some m else none })
   else
     ({ spool := sp, cache := c }, { resp := i.render i.req, seen := some i.req })
 
